@@ -7,10 +7,11 @@ snapshot  and  every delivered row == its canonical form at delivery )."""
 import gc
 
 from sim import devices
-from sim.canon import Log, snapshot, canon_row, canon_cell, dec_table
+from sim.canon import (Log, snapshot, canon_row, canon_cell, dec_table,
+                       enc_table)
 from sim.catalogue import RECIPES, NAMES
 from sim.core import outcome, draw_config
-from sim.gen import gen_table
+from sim.gen import gen_table, gen_sorted_table
 from sim.loader import load_petl
 from sim.sched import Sched, Violation, gen_schedule
 from sim.viewcase import build, solo_reference, is_items, shrink_common
@@ -79,7 +80,10 @@ def gen_case(rng, tier, g):
     nf = rng.randint(3, 5) if (rec.rect or rng.random() < 0.6) else None
     tables = []
     for _ in range(rec.nsrc):
-        if rec.profile == 'containers' or (rec.profile is None
+        if rec.profile == 'sorted':
+            t = enc_table(gen_sorted_table(rng.randint(1, maxrows), 5,
+                                           stride=len(tables) + 1))
+        elif rec.profile == 'containers' or (rec.profile is None
                                            and rng.random() < 0.1):
             t = gen_table(rng, maxrows, minrows=1, profile='containers',
                           nfields=max(nf or 4, 4))
